@@ -721,7 +721,9 @@ pub fn region(addr: usize, size: usize, fi: usize) {
 pub fn stack_region(pi: usize, top: usize, size: usize) {
     let mut s = g().m.lock().unwrap();
     if pi < s.stacks.len() {
-        s.stacks[pi] = (top.saturating_sub(size), top + 8192);
+        // `top` is a local of the thread's outermost closure: everything kanal puts on this stack lies below it.
+        // Keep clear of both ends so that neighbouring mappings (other stacks, malloc arenas) are never claimed.
+        s.stacks[pi] = (top.saturating_sub(size - 16384), top + 64);
     }
 }
 
